@@ -77,3 +77,30 @@ Definition never_writes (acc : string) (ss : list sk) : bool := negb (existsb (w
    satisfies [ok] *)
 Definition all_methods (pre : string) (ok : list sk -> bool) (tbl : list (string * list sk)) : bool :=
   forallb (fun kv => if prefix pre (fst kv) then ok (snd kv) else true) tbl.
+
+(* the body is exactly  lock(); defer unlock(); rest  and rest never touches the lock again *)
+Definition starts_locked (lock unlock lockfield : string) (ss : list sk) : bool :=
+  negb (existsb has_other ss) &&
+  match split_lock lock unlock ss with
+  | Some ([], body) => negb (existsb (mentions lockfield) body)
+  | _ => false
+  end.
+
+(* number of calls of functions of package unix, at any depth *)
+Fixpoint count_unix (s : sk) : nat :=
+  match s with
+  | SCall _ c _ => if prefix "unix." c then 1 else 0
+  | SDefer c _ | SGo c _ => if prefix "unix." c then 1 else 0
+  | SIf _ thn els => list_sum (map count_unix thn) + list_sum (map count_unix els)
+  | SFor _ b | SRange _ b => list_sum (map count_unix b)
+  | _ => 0
+  end.
+Definition syscalls_in (ss : list sk) : nat := list_sum (map count_unix ss).
+
+Fixpoint has_go (s : sk) : bool :=
+  match s with
+  | SGo _ _ => true
+  | SIf _ thn els => existsb has_go thn || existsb has_go els
+  | SFor _ b | SRange _ b => existsb has_go b
+  | _ => false
+  end.
